@@ -37,7 +37,7 @@ def viewOf (G : Files.St) : Json :=
     (match Files.writeFile G n with | .content c => ofChars c | _ => Json.null),
     (match Files.getContentType G n with | .ctype c => ofChars c | _ => Json.null)])).toArray
 
-/-- ["write", ids, store, files] ; ["read", payload, parts, override, store, files] -/
+/-- ["write", ids, store, files] ; ["read", payload, parts, override, store, files] ; ["multipart", source files, receiver files, [[file element…]…]] -/
 def handle (u : Unit) (op : String) (args : List Json) : Unit × Json :=
   match op, args with
   | "write", [ids, store, files] =>
@@ -48,6 +48,12 @@ def handle (u : Unit) (op : String) (args : List Json) : Unit × Json :=
   | "read", [payload, parts, ov, store, files] =>
     let r := readInto Gen.Aasx.descends ⟨(jarr payload).map objOf, (jarr parts).map partOf⟩ (jbool ov) ((jarr store).map objOf) (containerOf files)
     (u, Json.arr #["ok", Json.arr (r.store.map jsonOfObj).toArray, viewOf r.files, Json.arr (r.readIds.map ofChars).toArray])
+  | "multipart", [src, recv, fss] =>
+    -- one writer call per AAS part (shared bookkeeping of the parts written), then the parts read one after the other
+    let F := containerOf src
+    let parts := collectPartsSeq Gen.Aasx.descends F ((jarr fss).map (fun fs => (jarr fs).map fileOf)) []
+    let r := collectFilesSeq Gen.Aasx.descends parts (containerOf recv) ((jarr fss).map (fun fs => (jarr fs).map fileOf))
+    (u, Json.arr #[Json.arr (parts.map jsonOfPart).toArray, Json.arr (r.2.map (fun fs => Json.arr (fs.map jsonOfFile).toArray)).toArray, viewOf r.1])
   | "realpath", [p] => (u, ofChars (realpath (jchars p)))
   | "islocal", [p] => (u, Json.bool (isLocal (jchars p)))
   | _, _ => (u, Json.arr #["bad-op"])
